@@ -167,4 +167,19 @@ META = {
               "harness, hook observer, driver parser, orchestrator. Out of scope: usize overflow; sizes in (page-16, page) (find_region does not terminate, "
               "observed under the hook's page limit); the CQMem node<->event invariant is checked on runs (every node released at drop), not proved."),
         technique=_T),
+    "C05": dict(
+        text=("Lean 4 theorems about the model of one module's timer driver (sorted slot queue, entry handles, next/bump, Driver.next_wakeup, "
+              "activate/deactivate, Sleep::poll/reset/drop, Timeout::poll, Interval::poll_tick with all MissedTickBehavior arms): the wake-up invariant "
+              "WakeInv is preserved by every event carrying any sequence of register/drop/reset operations (C05.wakeinv_preserved, wakeinv_all_histories); "
+              "from it a registered entry is woken at an event at exactly its deadline, not later, not lost (fires_exactly_at_deadline, live_timer_has_wakeup), "
+              "never early / reached deadline immediate (never_early, reached_deadline_immediate), timeout_ok_iff_inner_by_deadline, interval_tick_times / "
+              "interval_burst_ticks; lifted to the scripted simulation for all scripts (script_ops_admissible, sim_wakeinv_all_scripts, "
+              "sim_ends_with_no_pending_timer). Tied to the code by real des simulations running generated timer scripts whose every observation is compared "
+              "with the Lean model run. Found and repaired F3 (TimerQueue::next ignored live slots behind an emptied front slot); witnesses "
+              "orig_next_*_witness keep the pre-repair function refuted."),
+        design_ref="DESIGN.md §5 C05, §6 F3",
+        note=("Trusted/partial: tokio waker plumbing (a woken task is re-polled in the same event, C06); event-set time order (C01/C03) enters as the hypothesis "
+              "EvOk/Consistent; Weak<TimerSlot> handle = slot deadline; equal-time events of different modules ordered by module index in the model "
+              "(independent modules); model fuel not proved sufficient; never-lost clause for deadlines < SimTime::MAX; select! modelled biased; overflow out of scope."),
+        technique=_T),
 }
